@@ -611,6 +611,15 @@ def zc_episode(g, kind, steps):
         ep.define(v, ks, [m] if kind == "dense0" else [])
         ep.views.add(v)
         views.append(v)
+    if views and r.random() < 0.6:
+        # straight away, while every chunk of the view still borrows the caller's bytes: a batch whose first value is present
+        v = r.choice(views)
+        for k in r.sample(ks, min(len(ks), 3)):
+            g.emit("addmanyfrom %s %d %d %d" % (v, k * CH, r.choice([1, 3, 10]), r.choice([1, 2, 3, 257, 4099, 6007])))
+            ep.keys[v] |= set(kk for kk in ep.allkeys() if kk >= k) | {min(65535, k + 1)}
+            g.emit("zsame %s" % m)
+        g.count("zc:addmanyfrom-first")
+        ep.check()
     # an ordinary partner with overlapping keys
     o = g.fresh("o")
     ko = sorted(set(k + r.choice([0, 0, 0, 1]) for k in ks) | ({ks[-1] + 2} if r.random() < 0.5 and ks[-1] + 2 < 65536 else set()))
